@@ -71,3 +71,15 @@ theorem mapM_crop (recon intended : List Nat) (hlen : recon.length = intended.le
       rfl
 
 end OdlModel.Wavelet
+
+namespace OdlModel.Wavelet
+theorem scaleBlocks_lengths_aux (details : List (List (String × List Nat))) (k : Nat) :
+    ((details.zipIdx k).map fun (d, i) => (sortKeys d).map fun b => List.replicate (prod b.2) (i + 1)).flatten.map List.length
+      = ((details.map sortKeys).flatten.map fun b => prod b.2) := by
+  induction details generalizing k with
+  | nil => rfl
+  | cons d ds ih =>
+    simp only [List.zipIdx_cons, List.map_cons, List.flatten_cons, List.map_append, ih (k + 1)]
+    congr 1
+    simp [List.map_map, Function.comp_def]
+end OdlModel.Wavelet
